@@ -110,7 +110,7 @@ def interp(ctx, kind="volFrac", ineq=">", pi=1, N=3):
         ctx.prove("time at step 0 is t_0", ctx.implies(got, ctx.eq(st, d.time[0])))
 
 
-def combine(ctx, modes=("or", "and", "and"), N=2):
+def combine(ctx, modes=("or", "and", "and"), N=2, pre=()):
     """real postProcess: stop = any(or-conditions met) or (there are and-conditions and all of them are met);
     conditions already met before the step stay met"""
     ph, el = ("P1", "P2"), ("A", "B")
@@ -123,6 +123,10 @@ def combine(ctx, modes=("or", "and", "and"), N=2):
     m.getCurrentX = lambda: (d.time[d.n], ["X"])
     kinds = ["volFrac", "density", "composition", "nucRate"]
     conds, before, thr = [], [], []
+    for mode in pre:        # an earlier set of conditions, removed again with the public clearStoppingConditions()
+        m.addStoppingCondition(mk_cond("volFrac", ">", 0.5, 0, ph, el), mode)
+    if pre:
+        m.clearStoppingConditions()
     for i, mode in enumerate(modes):
         th = ctx.real("thr%d" % i, (0.0, 2.0)); thr.append(th)
         c = mk_cond(kinds[i % 4], ">" if i % 2 == 0 else "<", th, i % 2, ph, el)
@@ -145,7 +149,7 @@ def combine(ctx, modes=("or", "and", "and"), N=2):
     ctx.prove("state handed back unchanged", x == ["X"])
 
 
-def ttp(ctx, nc=2):
+def ttp(ctx, nc=2, pre=()):
     """TTPCalculator._getStopTime: model reset (conditions with it) before the run, temperature set, one time per condition (-1 if unmet)"""
     ph, el = ("P1",), ("A",)
     m = PrecipitateModel(phases=list(ph), elements=list(el))
@@ -154,6 +158,8 @@ def ttp(ctx, nc=2):
         c = SC.VolumeFractionCondition(SC.Inequality.GREATER_THAN, 0.5)
         c._isSatisfied = True; c._satisfiedTime = 123.0     # stale state from a previous temperature
         conds.append(c)
+    for mode in pre:        # the model was used with other stopping conditions before it was handed to the calculator
+        m.addStoppingCondition(SC.VolumeFractionCondition(SC.Inequality.GREATER_THAN, 0.25), mode)
     calc = TTPCalculator(m, conds)
     calc._maxTime = 10.0
     log = []
@@ -179,6 +185,32 @@ def ttp(ctx, nc=2):
     ctx.prove("conditions are and-combined in the model", m._stopConditionMode == [False] * nc and m._stoppingConditions == conds)
 
 
+def ttp_table(ctx, nc=2, nT=2):
+    """TTPCalculator.calculateTTP: the table holds, for every temperature and condition, exactly the time _getStopTime returned
+    (the run's interpolated crossing time, -1 when unmet)"""
+    m = PrecipitateModel(phases=["P1"], elements=["A"])
+    conds = [SC.VolumeFractionCondition(SC.Inequality.GREATER_THAN, 0.5) for _ in range(nc)]
+    calc = TTPCalculator(m, conds)
+    met = [[ctx.boolean("met_T%d_c%d" % (i, j)) for j in range(nc)] for i in range(nT)]
+    ts = [[ctx.real("t_T%d_c%d" % (i, j), (0.01, 9.5)) for j in range(nc)] for i in range(nT)]
+    for i in range(nT):
+        for j in range(nc):
+            ctx.assume(ts[i][j] > 0)
+    seen = []
+
+    def fake_stop_time(T):
+        i = len(seen); seen.append(T)
+        return [ts[i][j] if met[i][j] else -1 for j in range(nc)]
+    calc._getStopTime = fake_stop_time
+    calc.calculateTTP(600.0, 700.0, nT, 10.0)
+    ctx.prove("one run per temperature, in order", len(seen) == nT and [float(x) for x in seen] == [float(x) for x in np.linspace(600.0, 700.0, nT)])
+    ctx.prove("table shape", tuple(np.shape(calc.transformationTimes)) == (nT, nc))
+    for i in range(nT):
+        for j in range(nc):
+            ctx.prove("reported transformation time is the run's crossing time, -1 when unmet",
+                      ctx.eq(calc.transformationTimes[i, j], ts[i][j] if met[i][j] else -1.0))
+
+
 _F = [SC.PrecipitationStoppingCondition.testCondition, SC.PrecipitationStoppingCondition._testCondition, SC.PrecipitationStoppingCondition._poll,
       SC.CompositionCondition._poll, SC.PrecipitationStoppingCondition.reset, PrecipitateBase.postProcess, PrecipitateBase.addStoppingCondition,
       PrecipitateBase.phaseIndex, TTPCalculator._getStopTime, TTPCalculator.__init__]
@@ -194,8 +226,12 @@ HARNESSES = [
                     "thorough": [dict(x, N=n) for x in _all_kinds for n in (1, 2, 4)]}),
     Harness("C19.combine", combine, functions=_F, assumptions=_A, bounds={"conditions": "<= 3 (4 thorough)"},
             stubs=["_calculateDependentTerms/_appendArrays/_updateParticleSizeDistribution/updateCoupledModels/getCurrentX of the model: no-ops (not the subject)"],
-            params={"quick": [{"modes": ["or"]}, {"modes": ["and", "and"]}, {"modes": ["or", "and", "and"]}, {"modes": ["or", "or", "and"]}, {"modes": []}],
+            params={"quick": [{"modes": ["or"]}, {"modes": ["and", "and"]}, {"modes": ["or", "and", "and"]}, {"modes": ["or", "or", "and"]}, {"modes": []},
+                              {"modes": ["and", "and"], "pre": ["or", "or"]}, {"modes": ["or", "and"], "pre": ["and"]}],
                     "thorough": [{"modes": list(mo)} for k in (1, 2, 3, 4) for mo in __import__("itertools").product(("or", "and"), repeat=k)]}),
     Harness("C19.ttp", ttp, functions=_F, assumptions=_A, stubs=["model.solve replaced by a stub that marks conditions met according to symbolic bits"],
-            params={"quick": [{"nc": 1}, {"nc": 2}], "thorough": [{"nc": 3}]}),
+            params={"quick": [{"nc": 1}, {"nc": 2}, {"nc": 2, "pre": ["or"]}], "thorough": [{"nc": 3}, {"nc": 3, "pre": ["or", "and"]}]}),
+    Harness("C19.ttp_table", ttp_table, functions=[TTPCalculator.calculateTTP], assumptions=["crossing times > 0 arbitrary reals (fractions of a second included)"],
+            stubs=["TTPCalculator._getStopTime replaced by a stub returning symbolic crossing times / -1 per symbolic bit (the real one is the subject of C19.ttp)"],
+            params={"quick": [{"nc": 2, "nT": 2}], "thorough": [{"nc": 3, "nT": 3}]}),
 ]
